@@ -110,9 +110,15 @@ class Models:
         if isinstance(v, SStr):
             if any(isinstance(p, (str, Fmt)) for p in v.pieces):
                 return True
-            raise Unsupported("truth of opaque string")
+            # a string the engine knows nothing about: empty or not, the same answer every time it is asked on a path
+            memo = self.st.ghost.setdefault("opaque_truth", {})
+            key = id(v.pieces[0]) if v.pieces else 0
+            if key not in memo:
+                memo[key] = (SBool(z3.Bool(fresh_name("nonempty_str"))), v)
+            return memo[key][0]
         if isinstance(v, SFloat):
-            raise Unsupported("truth of opaque float")
+            from .values import fconst
+            return mk_bool(z3.And(v.e != fconst(0.0), v.e != fconst(-0.0)))
         if isinstance(v, Ref):
             if v.kind in ("list", "tuple"):
                 return len(self.st.rec(v)["items"]) != 0
@@ -1034,6 +1040,21 @@ class Models:
             # a name known only by its literal prefix (configuration keys): allowed when it cannot collide with
             # an attribute of the class or a private field
             lead = name.pieces[0] if isinstance(name.pieces[0], str) else ""
+            if not lead and len(name.pieces) == 1 and isinstance(name.pieces[0], Opaque):
+                # a wholly unknown name: it is one of the object's fields, a class attribute, or a new name.  Case split
+                # over those (candidates contradicting what the path already learnt about the name's prefix / suffix
+                # are dropped).
+                cands = list(rec["fields"]) + sorted(n_ for n_ in self.class_names(cls) if not n_.startswith("__"))
+                cands += ["new_public_name", "_new_private_name"]
+                memo = self.st.ghost.get("str_affix", {})
+                for (pid, how, affixes), (ans, _s) in memo.items():
+                    if pid == id(name.pieces[0]):
+                        cands = [c for c in cands if any(getattr(c, how)(a) for a in affixes) == ans]
+                cands = list(dict.fromkeys(cands))
+                if not cands:
+                    raise PathEnd()
+                pick = cands[self.st.choice(len(cands), "unknown-attribute-name")]
+                return self.object_setattr(obj, pick, v)
             if not lead:
                 raise Unsupported(f"attribute store with unknown name {name}")
             for cname in list(self.class_names(cls)) + [f for f in rec["fields"] if f.startswith("_")]:
@@ -1510,16 +1531,63 @@ class Models:
                     self.raise_(type(e), str(e))
             errors = args[1] if len(args) > 1 else kwargs.get("errors", "strict")
             enc = args[0] if args else kwargs.get("encoding", "utf-8")
+            self.st.ghost.setdefault("codec_log", []).append(("decode", enc, errors))
             if errors in ("backslashreplace", "replace", "ignore"):
                 return SStr((Opaque("decoded"),))
             raise Unsupported("decode strict of symbolic bytes")
         if name == "replace":
             raise Unsupported("bytes.replace")
+        if name in ("rstrip", "lstrip", "strip"):
+            return self.bytes_strip(rope, name, args)
         raise Unsupported(f"bytes.{name}")
+
+    def bytes_strip(self, rope, name, args):
+        """b.rstrip(chars) / lstrip / strip with a concrete set of byte values: the result is the slice b[lo:hi] with
+        every byte outside it (on the stripped side) in the set and the boundary byte, if any, not in the set"""
+        from .values import to_rope
+        chars = args[0] if args else b" \t\n\r\x0b\x0c"
+        if isinstance(chars, SBytes):
+            if not chars.is_concrete():
+                raise Unsupported(f"bytes.{name} with a symbolic character set")
+            chars = chars.concrete()
+        if chars is None:
+            chars = b" \t\n\r\x0b\x0c"
+        if not isinstance(chars, (bytes, bytearray)):
+            self.raise_(TypeError, "a bytes-like object is required")
+        rope = to_rope(rope)
+        if rope.is_concrete():
+            return getattr(rope.concrete(), name)(bytes(chars))
+        cs = sorted(set(chars))
+        n = zint(rope.length())
+        st = self.st
+
+        def inset(e):
+            return z3.Or(*[e == c for c in cs]) if cs else z3.BoolVal(False)
+
+        lo, hi = z3.IntVal(0), n
+        if name in ("rstrip", "strip"):
+            hi = z3.Int(fresh_name("rstrip_hi"))
+        if name in ("lstrip", "strip"):
+            lo = z3.Int(fresh_name("lstrip_lo"))
+        st.assume(mk_bool(z3.And(lo >= 0, lo <= hi, hi <= n)))
+        if name in ("rstrip", "strip"):
+            st.assume(mk_bool(z3.Or(hi == lo, z3.Not(inset(rope.at(hi - 1))))))
+            st.add_forall(lambda j, hi=hi, n=n, rope=rope: z3.Implies(z3.And(j >= hi, j < n), inset(rope.at(j))))
+            st.add_trigger(n - 1)
+            st.add_trigger(n - 2)
+            st.add_trigger(hi)
+        if name in ("lstrip", "strip"):
+            st.assume(mk_bool(z3.Or(lo == hi, z3.Not(inset(rope.at(lo))))))
+            st.add_forall(lambda j, lo=lo, rope=rope: z3.Implies(z3.And(j >= 0, j < lo), inset(rope.at(j))))
+            st.add_trigger(z3.IntVal(0))
+            st.add_trigger(lo - 1)
+        return self.subscript(rope if isinstance(rope, SBytes) else rope, slice(mk_int(lo), mk_int(hi), None))
 
     def str_method(self, s, name, args, kwargs):
         if name == "encode":
             errors = args[1] if len(args) > 1 else kwargs.get("errors", "strict")
+            enc = args[0] if args else kwargs.get("encoding", "utf-8")
+            self.st.ghost.setdefault("codec_log", []).append(("encode", enc, errors))
             rope = SBytes.view(Base("enc"), 0, z3.Int(fresh_name("enclen")))
             self.st.assume(mk_bool(zint(rope.length()) >= 0))
             if errors == "strict":
@@ -1527,7 +1595,47 @@ class Models:
             return rope
         if name in ("format", "join"):
             return SStr((Opaque(name),))
+        if name in ("startswith", "endswith") and len(args) == 1 and isinstance(args[0], (str, tuple)) \
+                and all(isinstance(x, str) for x in (args[0] if isinstance(args[0], tuple) else (args[0],))):
+            return self.str_affix(s, name, args[0])
         raise Unsupported(f"str.{name}")
+
+    def str_affix(self, s, name, affix):
+        """startswith / endswith of a symbolic string with a concrete affix: decided from the concrete text at that end of
+        the piece list where possible, otherwise an arbitrary (but per path and per question consistent) answer"""
+        affixes = affix if isinstance(affix, tuple) else (affix,)
+        pieces = list(s.pieces)
+        if name == "endswith":
+            pieces = pieces[::-1]
+        lead = ""
+        for pc in pieces:
+            if not isinstance(pc, str):
+                break
+            lead = (lead + pc) if name == "startswith" else (pc + lead)
+        whole = all(isinstance(pc, str) for pc in pieces)
+        undecided = False
+        for a in affixes:
+            if name == "startswith":
+                if len(lead) >= len(a) or whole:
+                    if lead.startswith(a):
+                        return True
+                    continue
+                if a.startswith(lead):
+                    undecided = True
+            else:
+                if len(lead) >= len(a) or whole:
+                    if lead.endswith(a):
+                        return True
+                    continue
+                if a.endswith(lead):
+                    undecided = True
+        if not undecided:
+            return False
+        memo = self.st.ghost.setdefault("str_affix", {})
+        key = (id(s.pieces[0 if name == "startswith" else -1]), name, affixes)
+        if key not in memo:
+            memo[key] = (self.st.choice(2, f"str-{name}") == 1, s)  # keep s alive: the key is an object identity
+        return memo[key][0]
 
     # -- formatting
     def format(self, val, spec, conv):
@@ -1904,6 +2012,30 @@ class Models:
                 return struct.unpack(fmt, data)
             except Exception as e:
                 self.raise_(type(e), str(e))
+        import re as _re
+        INTF = {"b": (1, True), "B": (1, False), "h": (2, True), "H": (2, False), "i": (4, True), "I": (4, False),
+                "l": (4, True), "L": (4, False), "q": (8, True), "Q": (8, False)}
+        if _re.fullmatch(r"[<>!][bBhHiIlLqQ]+", fmt):
+            # fixed-size integer fields in standard size, little or big endian
+            if not isinstance(data, SBytes):
+                self.raise_(TypeError, "a bytes-like object is required")
+            total_n = sum(INTF[c][0] for c in fmt[1:])
+            ln = data.length()
+            if isinstance(ln, int):
+                if ln != total_n:
+                    self.raise_(struct.error, f"unpack requires a buffer of {total_n} bytes")
+            elif self.st.branch(mk_bool(zint(ln) != total_n)):
+                self.raise_(struct.error, f"unpack requires a buffer of {total_n} bytes")
+            out, off = [], 0
+            for c in fmt[1:]:
+                w, signed = INTF[c]
+                idx = range(w) if fmt[0] == "<" else range(w - 1, -1, -1)
+                u = z3.Sum([data.at(off + k) * (1 << (8 * j)) for j, k in enumerate(idx)]) if w > 1 else data.at(off)
+                if signed:
+                    u = z3.If(u >= (1 << (8 * w - 1)), u - (1 << (8 * w)), u)
+                out.append(mk_int(u))
+                off += w
+            return tuple(out)
         if fmt not in ("<f", "<d"):
             raise Unsupported(f"struct.unpack {fmt}")
         if not isinstance(data, SBytes):
